@@ -2,7 +2,7 @@
    Statements only; proofs in Proofs/ItsFacts.v. *)
 From Coq Require Import String List NArith Lia Bool.
 From Ax Require Import Lib.Bytes Lib.Mvx Lib.SolAbi Lib.Keccak Model.Check Model.Env Model.Gateway Model.TokenManager Model.Its
-     Proofs.GatewayMsgs Proofs.TMFacts Proofs.ItsFacts Proofs.ItsWorld Proofs.ItsMore Proofs.ItsApprovals Gen.Generated.
+     Proofs.GatewayMsgs Proofs.TMFacts Proofs.ItsFacts Proofs.ItsWorld Proofs.ItsMore Proofs.ItsApprovals Proofs.ItsApprovalCount Gen.Generated.
 Import ListNotations.
 Open Scope N_scope.
 
@@ -71,13 +71,65 @@ Section C19.
       appr w' key = H dminter /\
       check_token_minter (w_led_ w l1) c token_id (ic_caller c) = true.
   Proof. exact (approval_origin H verify). Qed.
+  (* ---- whole histories (Proofs/ItsApprovalCount.v) ----
+     per step, over all 25 operation kinds, for every key and every non-empty hash h:
+        [this step is a successful deployment under key naming a minter with hash h] + [slot holds h afterwards]
+          <=  [slot held h before] + [this step is a successful approval of exactly (key, h)]
+     summed over any history: the deployments naming hash h under a key never outnumber the approvals of exactly
+     (key, h); a replaced, revoked or used approval authorises nothing *)
+  Theorem c19_approval_step : forall w o key h, h <> [] ->
+    use_hit H verify key h w o + holds (fst (istep H verify w o)) key h <= holds w key h + approve_hit H verify key h w o.
+  Proof. exact (approval_step H verify). Qed.
+  Theorem c19_approval_history : forall ops w key h, h <> [] ->
+    total H verify (use_hit H verify key h) w ops + holds (irun H verify w ops) key h <= holds w key h + total H verify (approve_hit H verify key h) w ops.
+  Proof. exact (approval_history H verify). Qed.
+  Theorem c19_uses_bounded_by_approvals : forall ops w key h, h <> [] -> appr w key <> h ->
+    total H verify (use_hit H verify key h) w ops <= total H verify (approve_hit H verify key h) w ops.
+  Proof. exact (uses_bounded_by_approvals H verify). Qed.
 End C19.
 Print Assumptions c19_approve.
 Print Assumptions c19_deploy.
 Print Assumptions c19_single_use.
 Print Assumptions c19_approvals_frame.
 Print Assumptions c19_approval_origin.
+Print Assumptions c19_approval_history.
+Print Assumptions c19_uses_bounded_by_approvals.
+
+(* non-vacuity: the minter approves (deployer, salt, ethereum, "0xremoteminter"), replaces it by "0xother", the deployer
+   then names the first minter (refused), the second (accepted) and the second again (refused): one approval of each
+   hash, no use of the first, exactly one use of the second *)
+Module NV.
+  Import Findings.
+  Definition minterA := A 5.  Definition deployer := A 6.  Definition salt := be_enc 32 99.
+  Definition s0 := its0 [(str "ethereum", str "0xITS"); (str "axelar", str "axelar1hub")] false.
+  Definition ntid := interchain_token_id keccak256 s0 deployer salt.
+  Definition w0 : iworld :=
+    {| iw_gw := gw0 [];
+       iw_its := {| i_gateway := i_gateway s0; i_gas := i_gas s0; i_tm_impl := i_tm_impl s0; i_chain := i_chain s0; i_chain_hash := i_chain_hash s0;
+                    i_paused := false; i_trusted := i_trusted s0; i_tms := [(ntid, tma)]; i_locks := []; i_approvals := []; i_roles := []; i_proposed := [] |};
+       iw_tms := [(tma, {| tm_service := self; tm_type := T_NATIVE; tm_tid := ntid; tm_token := str "MTK-abcdef"; tm_roles := [(minterA, 1)]; tm_proposed := [];
+                           tm_limit := 0; tm_in := []; tm_out := []; tm_pending := 0 |})];
+       iw_led := []; iw_pend := []; iw_next := 0 |}.
+  Definition key := approval_key keccak256 minterA ntid (str "ethereum").
+  Definition h1 := keccak256 (str "0xremoteminter").  Definition h2 := keccak256 (str "0xother").
+  Definition ops : list iop :=
+    [ IApproveRemote (cx minterA no_value) deployer salt (str "ethereum") (str "0xremoteminter");
+      IApproveRemote (cx minterA no_value) deployer salt (str "ethereum") (str "0xother");
+      IDeployRemote (cx deployer no_value) salt minterA (str "ethereum") (Some (str "0xremoteminter"));
+      IDeployRemote (cx deployer no_value) salt minterA (str "ethereum") (Some (str "0xother"));
+      IDeployRemote (cx deployer no_value) salt minterA (str "ethereum") (Some (str "0xother")) ].
+End NV.
+Example c19_history_nonvacuous :
+  total keccak256 Findings.vf (approve_hit keccak256 Findings.vf NV.key NV.h1) NV.w0 NV.ops = 1 /\
+  total keccak256 Findings.vf (use_hit keccak256 Findings.vf NV.key NV.h1) NV.w0 NV.ops = 0 /\
+  total keccak256 Findings.vf (approve_hit keccak256 Findings.vf NV.key NV.h2) NV.w0 NV.ops = 1 /\
+  total keccak256 Findings.vf (use_hit keccak256 Findings.vf NV.key NV.h2) NV.w0 NV.ops = 1 /\
+  NV.h1 <> [] /\ NV.h2 <> [] /\ appr NV.w0 NV.key = [].
+Proof. vm_compute. repeat split; try reflexivity; discriminate. Qed.
+
 Example pin_approval_fields : gen_its_DeployApproval_fields = ["minter"; "token_id"; "destination_chain"]%string := eq_refl.
 Example pin_approval_prefix : gen_its_PREFIX_DEPLOY_APPROVAL = PREFIX_APPROVAL := eq_refl.
 Check c19_deploy.
 Check c19_approval_origin.
+Check c19_approval_history.
+Check c19_uses_bounded_by_approvals.
